@@ -164,9 +164,15 @@ CHECKS = {
              "`first` followed by a run of what follows (the whole log of a root field, with the finishes of its entire "
              "sub-selection, precedes the first start of the next); the chain of root fields continues after a contained "
              "failure and stops when a root raises (non-null); a mutation operation is executed by that serial chain (the "
-             "operation-type dispatch is part of the model). The check runs mutation documents (several roots, aliases, "
+             "operation-type dispatch is part of the model). THE WHOLE CHAIN (Proofs/SerialChain.v): for any number of root "
+             "fields and every schedule a complete run of the chain is a serial run -- one entry per root field that ran "
+             "(key, result, a complete log under a schedule of its own), the ran fields are an initial segment of the collected "
+             "ones in document order, the chain's log is the concatenation of the entries' logs, it stops only at a raise, the "
+             "object of a completed chain lists the keys in document order; the log of a mutation operation begins with such a "
+             "serial run (C09_mutation_log_is_serial). The check runs mutation documents (several roots, aliases, "
              "root fragments, nested lists) x failure placements x pick sequences (enumerated + last-started, deepest, "
-             "shallowest-last, random) in 3 configurations on the real engine, checks the start/finish log for seriality "
+             "shallowest-last, random) in 3 configurations on the real engine -- also over a schema that declares ONE object type as "
+             "query and mutation root --, checks the start/finish log for seriality "
              "and response key order, the response against the specification executor, and the run against run_sched.",
         note="Trusted: as C08.",
         design="4 C09"),
